@@ -445,6 +445,18 @@ pub fn open_paths_differ(bytes: &[u8], other: Option<&[u8]>, with_stream: bool) 
             bad.push(format!("{} gives [{}] but Fst::new gives [{}]", label, got, want));
         }
     };
+    cmp("Fst::new(..).clone()", open_outcome(raw::Fst::new(bytes.to_vec()).map(|f| f.clone()), with_stream));
+    cmp(
+        "Fst::new(..) verified twice, then cloned",
+        open_outcome(
+            raw::Fst::new(bytes.to_vec()).map(|f| {
+                let _ = f.verify();
+                let _ = f.verify();
+                f.clone()
+            }),
+            with_stream,
+        ),
+    );
     cmp("Map::new(..).into_fst()", open_outcome(fst::Map::new(bytes.to_vec()).map(|m| m.into_fst()), with_stream));
     cmp("Set::new(..).into_fst()", open_outcome(fst::Set::new(bytes.to_vec()).map(|m| m.into_fst()), with_stream));
     if let Ok(m) = fst::Map::new(bytes.to_vec()) {
@@ -959,6 +971,29 @@ impl Runner {
             Some(f) => f,
             None => return "nofst".into(),
         };
+        // HISTORY: what happened before on this thread must not matter. Before the query itself,
+        // the same query is started and dropped half-way (after 0..2 items); afterwards it is run
+        // again as two streams advanced in alternation, and the finished stream is polled again.
+        let salt = fnv64(line_of(t).as_bytes());
+        {
+            let mut sb = f.search(&aut);
+            for (k, b) in &setters {
+                sb = match &k[..] {
+                    "ge" => sb.ge(b),
+                    "gt" => sb.gt(b),
+                    "le" => sb.le(b),
+                    _ => sb.lt(b),
+                };
+            }
+            let mut s = sb.into_stream();
+            for _ in 0..(salt % 3) {
+                if s.next().is_none() {
+                    break;
+                }
+            }
+            // dropped here, half-way
+        }
+        let mut after_none_ok = true;
         let mut items: Vec<(Vec<u8>, u64, String)> = vec![];
         if with_state {
             let mut sb = f.search_with_state(&aut);
@@ -987,6 +1022,53 @@ impl Runner {
             let mut s = sb.into_stream();
             while let Some((k, v)) = s.next() {
                 items.push((k.to_vec(), v.value(), String::new()));
+            }
+            // a finished stream stays finished
+            for _ in 0..3 {
+                if s.next().is_some() {
+                    after_none_ok = false;
+                }
+            }
+        }
+        // two streams of the same query over the same FST, advanced in alternation
+        let mut twin_ok = true;
+        {
+            let mk = || {
+                let mut sb = f.search(&aut);
+                for (k, b) in &setters {
+                    sb = match &k[..] {
+                        "ge" => sb.ge(b),
+                        "gt" => sb.gt(b),
+                        "le" => sb.le(b),
+                        _ => sb.lt(b),
+                    };
+                }
+                sb.into_stream()
+            };
+            let (mut s1, mut s2) = (mk(), mk());
+            let mut i = 0usize;
+            loop {
+                let a = s1.next().map(|(k, v)| (k.to_vec(), v.value()));
+                let want = items.get(i).map(|(k, v, _)| (k.clone(), *v));
+                if a != want {
+                    twin_ok = false;
+                }
+                // the second one lags one step behind on odd salts
+                if salt % 2 == 0 || i > 0 {
+                    let j = if salt % 2 == 0 { i } else { i - 1 };
+                    let b = s2.next().map(|(k, v)| (k.to_vec(), v.value()));
+                    if b != items.get(j).map(|(k, v, _)| (k.clone(), *v)) {
+                        twin_ok = false;
+                    }
+                }
+                if a.is_none() {
+                    break;
+                }
+                i += 1;
+                if i > items.len() + 2 {
+                    twin_ok = false;
+                    break;
+                }
             }
         }
         let paths = crate::wrap::stream_paths(f, &aut, matches!(&spec, AutSpec::Always), &setters, with_state);
@@ -1037,6 +1119,16 @@ impl Runner {
                     }
                 }
             }
+        }
+        {
+            let prop = match &spec {
+                AutSpec::Always => "C03 C01",
+                AutSpec::Lev(_, _) => "C17",
+                _ => "C04 C18",
+            };
+            let l = line_of(t);
+            self.check(after_none_ok, || format!("{} a stream that returned None yields an item when polled again: {}", prop, l));
+            self.check(twin_ok, || format!("{} two streams of the same query advanced in alternation do not both yield the result of a single stream: {}", prop, l));
         }
         // the same query through the Map / Set wrappers (src/map.rs, src/set.rs)
         {
